@@ -151,6 +151,10 @@ ASSUMPTIONS = {
         "same execution model as C03 (Memfs operations from MIR, std containers modelled); reference = byte vector per file",
         "ASCII data (bytes == chars), <= 2 bytes per call, non-empty lines for the line helpers; Memfs only",
     ],
+    "C10": MIRSYM_ASSUMPTIONS + [
+        "same execution model as C03; expected values come from the abs/clean oracles on text",
+        "Memfs only, fixed 2-level tree, link/target texts of <= 2 chars; follow() swap is decided by the Kani harness under C13",
+    ],
     "C01": MIRSYM_ASSUMPTIONS + [
         "only the second sentence of the statement is decided: a single-target call (mkfile, mkdir_p, mkdir_m, write_all, append_all, remove, symlink, set_cwd, move_p) that reports failure leaves the observable tree unchanged; the comparison with a full reference filesystem over histories is outside the claim",
         "same execution model and bounds as C03",
